@@ -326,7 +326,10 @@ func (h *H) fullRequest(nd *node, q int) bool {
 	return true
 }
 
-const longWait = 20 * time.Second
+// how long the driver waits for the real code to reach the next quiescent point before it reports a hang;
+// shortened after two cases have hung (a broken tree would otherwise cost 20 s per case)
+var longWait = 20 * time.Second
+var hangs = 0
 
 // newBroadcast: after the real code started a broadcast (all n-1 sends queued), record it.
 func (h *H) newBroadcast(nd *node, parent string) *reqInfo {
@@ -1141,6 +1144,12 @@ func main() {
 			r = runSmoke(k)
 		} else {
 			r = runStepped(k)
+		}
+		if len(r.Err) >= 4 && r.Err[:4] == "hang" {
+			hangs++
+			if hangs >= 2 {
+				longWait = 1500 * time.Millisecond
+			}
 		}
 		enc.Encode(r)
 		out.Flush()
